@@ -2,7 +2,7 @@
     Model: Store/FinalizeDefs.v (isBlockOutdated, finalizeBlocks, finalizeBlockImpl incl. fix 057feaed,
     the TIP_IS_FINAL short-cuts of comparePopScore, setState with assertBlockCanBeUnapplied). *)
 From Coq Require Import NArith List Bool.
-From VB Require Import Store.FinalizeDefs Store.FinalizeProofs Store.FinalizeTheorems.
+From VB Require Import Store.FinalizeDefs Store.FinalizeProofs Store.FinalizeTheorems Store.FinalizeOutdated.
 Import ListNotations.
 Local Open Scope N_scope.
 
@@ -80,3 +80,11 @@ Theorem C09_outdated_cases :
   (height_of t cand = height_of t fin -> cand <> fin -> outdated rec fuel t fin cand = true).
 Proof. exact outdated_cases. Qed.
 Print Assumptions C09_outdated_cases.
+
+(* on a well-formed tree isBlockOutdated(final, candidate) is exactly "candidate does not descend from final" *)
+Theorem C09_outdated_iff_not_descendant :
+  forall r fuel t fin cand bf bc,
+  wf_tree t -> flookup (t_blocks t) fin = Some bf -> flookup (t_blocks t) cand = Some bc ->
+  outdated (S r) fuel t fin cand = negb (descends fuel t cand fin).
+Proof. exact outdated_iff_not_descends. Qed.
+Print Assumptions C09_outdated_iff_not_descendant.
